@@ -11,6 +11,7 @@ import (
 	"verifharness/envx"
 	"verifharness/gw"
 	"verifharness/tsgu"
+	"verifharness/wsraw"
 )
 
 // TdScript ends the client side of a tunnel in one way at one point.
@@ -69,6 +70,9 @@ func (i *Inst) RunTeardown(s *TdScript, tw *TraceWriter, rng *rand.Rand) error {
 		return err
 	}
 	pc := i.NewProtoCtx(s.Script, rng)
+	if s.Point == "pre" {
+		return i.teardownPre(s, tw, pc, g0, c0)
+	}
 	t, rep, err := i.Open(pc.OpenOpts())
 	if err != nil {
 		return fmt.Errorf("open: %w", err)
@@ -234,5 +238,120 @@ func (i *Inst) RunTeardown(s *TdScript, tw *TraceWriter, rng *rand.Rand) error {
 	if bc != nil {
 		bc.Close()
 	}
+	return nil
+}
+
+
+// teardownPre ends a legacy tunnel right after the IN request was accepted,
+// before the client sent its first bytes (the gateway is still in its drain).
+func (i *Inst) teardownPre(s *TdScript, tw *TraceWriter, pc *ProtoCtx, g0 map[string]float64, c0 gw.Event) error {
+	p := i.P
+	cid := i.R.NextCid("t")
+	d := i.dialOpts(pc.OpenOpts(), cid)
+	start := p.Mark()
+	out, rep, err := wsraw.DialLegacyOut(d)
+	if err != nil || out == nil {
+		return fmt.Errorf("open OUT: %v %v", err, rep)
+	}
+	defer out.Close()
+	if idx, _ := p.Wait(start, 10*time.Second, func(e gw.Event) bool { return e.Cid == cid && e.Pt == "legacy.out.published" }); idx < 0 {
+		return fmt.Errorf("OUT not published")
+	}
+	in, rep2, err := wsraw.DialLegacyIn(d)
+	if err != nil || in == nil {
+		return fmt.Errorf("open IN: %v %v", err, rep2)
+	}
+	if idx, _ := p.Wait(start, 10*time.Second, func(e gw.Event) bool { return e.Cid == cid && e.Pt == "legacy.in.attached" }); idx < 0 {
+		in.Close()
+		return fmt.Errorf("IN not attached")
+	}
+	closedByClient := map[string]bool{}
+	switch s.Cause {
+	case "fin:in":
+		in.Close()
+		closedByClient["in"] = true
+	case "rst:in":
+		in.Reset()
+		closedByClient["in"] = true
+	case "fin:out":
+		out.Close()
+		closedByClient["out"] = true
+	case "rst:out":
+		out.Reset()
+		closedByClient["out"] = true
+	default:
+		in.Close()
+		return fmt.Errorf("cause %q not applicable before the preamble", s.Cause)
+	}
+	t0 := time.Now()
+	deadline := t0.Add(tdBound)
+	left := func() time.Duration {
+		if d := time.Until(deadline); d > time.Millisecond {
+			return d
+		}
+		return time.Millisecond
+	}
+	connsClosed := true
+	if !closedByClient["out"] && out.WaitEOF(left()) == "timeout" {
+		connsClosed = false
+	}
+	if !closedByClient["in"] && in.WaitEOF(left()) == "timeout" {
+		connsClosed = false
+	}
+	// a tunnel that was registered has to be unregistered; a loop that started has to end
+	registered, unregistered, loopStarted, loopExited := false, false, false, false
+	gaugesBack, goroutinesBack := false, false
+	for {
+		for _, e := range p.Since(start) {
+			if e.Cid != cid {
+				continue
+			}
+			switch e.Pt {
+			case "reg.end":
+				registered = true
+			case "unreg.end":
+				unregistered = true
+			case "proc.recv", "tr.reading":
+				loopStarted = true
+			case "proc.exit":
+				loopExited = true
+			}
+		}
+		if !gaugesBack {
+			if g, err := i.gauges(); err == nil && sameGauges(g0, g) {
+				gaugesBack = true
+			}
+		}
+		if !goroutinesBack {
+			if c, err := p.Goroutines("after-" + s.ID); err == nil && census(c) <= census(c0) {
+				goroutinesBack = true
+			}
+		}
+		if (gaugesBack && goroutinesBack && (!registered || unregistered)) || time.Now().After(deadline) {
+			break
+		}
+		time.Sleep(20 * time.Millisecond)
+	}
+	// the connection id must be usable again: nothing of the ended tunnel may linger in the pairing cache
+	idReusable := true
+	if o2, _, _ := wsraw.DialLegacyOut(d); o2 != nil {
+		m2 := p.Mark()
+		i2, _, _ := wsraw.DialLegacyIn(d)
+		if i2 != nil {
+			i2.WriteChunk(make([]byte, 100))
+			if idx, _ := p.Wait(m2, 2*time.Second, func(e gw.Event) bool { return e.Cid == cid && e.Pt == "tr.reading" }); idx < 0 {
+				idReusable = false
+			}
+			i2.Close()
+		} else {
+			idReusable = false
+		}
+		o2.Close()
+		time.Sleep(20 * time.Millisecond)
+	}
+	in.Close()
+	tw.Line(M{"ev": "teardown", "script": s.ID, "transport": s.Transport, "point": s.Point, "cause": s.Cause, "inflight": s.Inflight, "hadHost": false,
+		"hostClosed": true, "connsClosed": connsClosed && idReusable, "loopExited": !loopStarted || loopExited, "relayDone": true, "unregistered": !registered || unregistered,
+		"gaugesBack": gaugesBack, "goroutinesBack": goroutinesBack, "panicked": false, "ms": int(time.Since(t0) / time.Millisecond), "idReusable": idReusable})
 	return nil
 }
